@@ -9,6 +9,9 @@ PID = "C01"
 DIMS = [("t", 0), ("a5", 5), ("b3", 3), ("c4", 4), ("d2", 2), ("e1", 1)]
 VDIMS = [[], ["a5"], ["b3", "c4"], ["d2", "b3", "d2"], ["t", "b3"], ["t", "d2", "d2"], ["d2", "e1", "d2", "e1", "d2"], ["t"]]
 CLASSIC = ["byte", "short", "int", "float", "double", "char"]
+VT = datagen.vartab([("v%d" % i, VDIMS[i], "int") for i in range(len(VDIMS))], DIMS)
+VDIMSB = [["a5"], ["t", "b3"]]
+VTB = datagen.vartab([("v0", ["a5"], "int"), ("v1", ["t", "b3"], "byte")], DIMS)
 CDF5 = CLASSIC + ["ubyte", "ushort", "uint", "int64", "uint64"]
 
 
@@ -63,18 +66,29 @@ def split(sub, nparts, rng):
     return parts
 
 
-def steps_for(h, rng, np, vars_, tr):
-    shapes = [[dict(DIMS)[d] if d != "t" else datagen.MAXREC for d in vd] for vd in VDIMS]
+def steps_for(h, rng, np, vars_, tr, vdims=None):
+    shapes = [[dict(DIMS)[d] if d != "t" else datagen.MAXREC for d in vd] for vd in (vdims or VDIMS)]
     out = []
     for c in h:
         k = c["c"]
-        if np == 1:
+        if np == 1 or k == "reopen":
             out += tr.steps([c])
             continue
         r = c["r"]
         sub = r["subs"][0]
         parts = split(sub, np, rng)
         tokmap = dict(zip(lin_elems(shapes[r["v"]], sub), c.get("tok", [])))
+        # in a collective call every rank calls the same API function: choose it once
+        xt = vars_[r["v"]][2]
+        unit = all(x == 1 for x in sub["stride"])
+        forms = ["vars", "varm"] + (["vara", "varn"] if unit else [])
+        if unit and xt != "char" and all(p is not None for p in parts) and len(sub["count"]) > 0:
+            forms.append("vard")
+        form = rng.choice(forms)
+        it = datagen.NATIVE[xt]
+        if xt != "char" and form != "vard" and rng.random() < 0.35:
+            it = rng.choice(datagen.CONV if k == "put" else datagen.WIDER[xt])
+        lay = rng.choice(datagen.LAYOUTS) if rng.random() < 0.4 and form != "vard" else None
         pr = {}
         for rank in range(np):
             p = parts[rank]
@@ -83,13 +97,19 @@ def steps_for(h, rng, np, vars_, tr):
                 if not p["count"]:
                     # a scalar cannot be zero-length: let this rank read it / rewrite the same value
                     p = sub
-            rr = {"v": r["v"], "subs": [p]}
-            a = tr.access_args(rr, k, True)
-            if a["form"] == "vard" and prod(p["count"]) == 0:
-                a["form"] = "vara"
-            a.update(mode="coll")
+            a = {"v": r["v"], "form": form, "itype": it, "mode": "coll"}
+            if form == "varn":
+                a.update(starts=[p["start"]], counts=[p["count"]])
+            else:
+                a.update(start=p["start"], count=p["count"])
+                if form in ("vars", "varm"):
+                    a["stride"] = p["stride"]
+            if lay:
+                a["flex"] = {"layout": lay}
             if k == "put":
                 a["vals"] = [tokmap[e] for e in lin_elems(shapes[r["v"]], p)]
+            else:
+                a["n"] = prod(p["count"])
             pr[str(rank)] = a
         st = dict(pr["0"])
         st.update(op=k, obs=tr.obs, pr={kk: vv for kk, vv in pr.items() if kk != "0"})
@@ -127,7 +147,9 @@ def run(tier, seed):
     mc = datacheck.design_check(tier)
     nwalk, depth = (700, 8) if tier == "quick" else (10000, 8)
     ws = datacheck.walks(nwalk, depth, seed, cfg="cfg/Access_sim.cfg", module="Access_MC.tla")
-    groups = {}
+    wsb = datacheck.walks(nwalk // 3, depth, seed + 5, cfg="cfg/Access_sim_b.cfg", module="Access_MC.tla")
+    execs = []
+    execsb = []
     nps = [1, 1, 2, 3] if tier == "quick" else [1, 2, 3, 4, 5, 8]
     for n, h in enumerate(ws):
         fmt = [None, "64BIT_OFFSET", "64BIT_DATA"][n % 3]
@@ -135,33 +157,34 @@ def run(tier, seed):
         vars_ = [("v%d" % i, VDIMS[i], rng.choice(types)) for i in range(len(VDIMS))]
         np = nps[n % len(nps)]
         tr = datagen.Translator(rng, vars_, DIMS, modes=(np == 1))
-        ex = {"x": "w%d" % n, "np": np, "steps": datagen.fixture(vars_, DIMS, fmt=fmt) + steps_for(h, rng, np, vars_, tr),
-              "vt": datagen.vartab(vars_, DIMS)}
-        groups.setdefault(json.dumps(ex["vt"]), []).append(ex)
-    # the variable table (element sizes) differs between executions: validate per table
-    allv, cov = [], None
-    for key, execs in groups.items():
-        vt = json.loads(key)
-        r = datacheck.run(PID, tier, seed, execs, mc, header=(lambda evs, vt=vt: {"vars": vt}), to_events=serial)
-        allv += r["violations"]
-        if cov is None:
-            cov = r["coverage"]
-        else:
-            for k in ("traces_validated_against_impl", "evaluations", "distinct_nontrivial", "trace_states", "rejected_first_pass"):
-                cov[k] += r["coverage"][k]
+        execs.append({"x": "w%d" % n, "np": np, "steps": datagen.fixture(vars_, DIMS, fmt=fmt) + steps_for(h, rng, np, vars_, tr)})
+    # second schema: exactly one record variable whose record size is not a multiple of 4
+    for n, h in enumerate(wsb):
+        fmt = [None, "64BIT_OFFSET", "64BIT_DATA"][n % 3]
+        vars_ = [("v0", ["a5"], rng.choice(["int", "short", "double"])), ("v1", ["t", "b3"], rng.choice(["byte", "char", "short"] + (["ubyte", "ushort"] if fmt == "64BIT_DATA" else [])))]
+        np = nps[n % len(nps)]
+        tr = datagen.Translator(rng, vars_, DIMS, modes=(np == 1))
+        execsb.append({"x": "b%d" % n, "np": np, "steps": datagen.fixture(vars_, DIMS, fmt=fmt) + steps_for(h, rng, np, vars_, tr, VDIMSB)})
+    rb = datacheck.run(PID, tier, seed, execsb, mc, header=lambda evs: {"vars": VTB}, to_events=serial)
+    # the external types differ between executions; the model only needs the shapes (element sizes matter to
+    # the buffered-put accounting alone, which this check does not exercise)
+    r = datacheck.run(PID, tier, seed, execs, mc, header=lambda evs: {"vars": VT}, to_events=serial)
+    allv, cov = r["violations"] + rb["violations"], r["coverage"]
+    for k in ("traces_validated_against_impl", "evaluations", "distinct_nontrivial", "trace_states", "rejected_first_pass"):
+        cov[k] += rb["coverage"][k]
     cov.update({"rule": "random walks (TLC -simulate) of blocking puts and gets drawn from ALL legal (start,count,stride) of variables "
-                        "with 0,1,2,3,5 dimensions (fixed and record, three record variables interleaved); each request issued through "
+                        "with 0,1,2,3,5 dimensions (fixed and record, three record variables interleaved; and a second schema with a single record variable of odd record size), interleaved with close+reopen; each request issued through "
                         "a random equivalent form (var1/vara/vars/varm with imap/varn/vard, typed or flexible with derived buffer "
                         "types, converting memory types), random external types per format (CDF-1/2/5), on 1..%d processes with "
                         "the region split among them (empty parts included)" % max(nps),
-                "walks": len(ws), "variable_tables": len(groups), "exhaustive": False})
+                "walks": len(ws), "exhaustive": False})
     return {"level": "model_checking", "coverage": cov, "violations": allv,
             "assumptions": ["never-written elements are unconstrained (no fill mode in this check)"]}
 
 
 def replay(path):
     r = json.load(open(path))
-    vt = r["exec"]["vt"]
+    vt = VTB if r["exec"]["x"].startswith("b") else VT
     bld = vlib.build("dbg")
     res, acc, rej, _ = vlib.run_validate(bld, [r["exec"]], datacheck.MODULE, datacheck.CFG_DEV, np=r["exec"].get("np", 1), par=1,
                                          header=lambda evs: {"vars": vt}, to_events=serial)
